@@ -1426,7 +1426,7 @@ def real_pipe(text, ctx, keep=False):
     return freeze(v), log, None
 
 
-FAIL_TAILS = ['select(nosuch($))', 'select(boom($))', 'where($.nosuchProp)', 'select($.nosuch())', 'takeWhile(amb($))',
+FAIL_TAILS = ['select(nosuch($))', 'select(boom($))', 'where(nosuch($))', 'select($.nosuch())', 'takeWhile(amb($))',
               'select(where($, true))', "select(g($, [1]))"]
 
 
@@ -1872,7 +1872,7 @@ def run_pipes(env, res, rng0, ctxs, hist, rp):
             if len([x for x in res.failures if x.key.startswith('per-element') or x.key == 'spelling']) >= 6:
                 break
         elif (rp is not None and rp.get('tail')) or (rp is None and p['stages'] and p['stages'][-1]['op'] not in PE_TERMINALS
-                                                    and rng.random() < 0.25):
+                                                    and rng.random() < 0.15):
             # error path: the same pipeline with a last lambda that fails on the first result it is applied to
             tail = rp['tail'] if rp is not None else rng.choice(FAIL_TAILS)
             try:
@@ -2214,7 +2214,7 @@ def run(env, res):
     tier = env['tier']
     rng = common.make_rng(env['seed'], 'C11')
     rp = None
-    n = 15000 if tier == 'quick' else 100000
+    n = 13000 if tier == 'quick' else 90000
     max_depth = 3 if tier == 'quick' else 4
     res.rule = ('typed random expressions of depth <= %d with a numbered probe in every operand position (operators, list/map '
                 'literals, indexer, method and keyword calls, library functions, every short-circuit function, def and assert '
@@ -2224,7 +2224,14 @@ def run(env, res):
                 'per-element lambdas, lazy pipelines as second collection of join/zip/concat, consumed completely or partly '
                 '(non-trivial = at least 2 probe events); plus single calls of mergeWith / search / searchAll / replaceBy. '
                 'Every argument is written positionally or by keyword (the alias of the live registry; a shuffled suffix of '
-                'the parameters), in a context of the camelCase or of the Python naming convention' % max_depth)
+                'the parameters), in a context of the camelCase or of the Python naming convention. ERROR PATHS: in a quarter '
+                'of the expressions one call ends in an exception (19 kinds: unknown function / method / property, method-only '
+                'function in function form, arity, no matching, ambiguous, host function raises, payload raises, assert), 4 %% '
+                'raise lazily while the result is converted, a quarter of the non-terminal pipelines get a failing last lambda: '
+                'the log up to the exception is compared. UNCONSUMED LAZY VALUES: pipelines / orderings with probes in their '
+                'lambdas in the positions that do not iterate (truth and null tests, conditions and branches of switch / '
+                'selectCase / coalesce / assert, dropped list elements and dict values, let bindings never read, arguments '
+                'handed on, predicate results)' % max_depth)
     ctxs = {k: conv_context('camel', k) for k in range(1, 7)}
     hist = {}
     cases = []
@@ -2348,7 +2355,14 @@ LEVEL_TEXT = ('Lean 4: the evaluation log of the resolver model is one left-to-r
               'consumed and in input order, the probes of pulling it and of the lambda body on it, once - for the whole result '
               'and for its first k+1 results; nothing of the elements behind), take_log (a consumer of k results consumes '
               'exactly k), instances for select/where/distinct/takeWhile/skipWhile/selectMany/any/all/indexWhere/first/'
-              'accumulate/zip/concat/join (join_pass_events, join_empty_outer). Tie: generated probe expressions, pipelines '
+              'accumulate/zip/concat/join (join_pass_events, join_empty_outer). Error paths (Props/C11Err over EvalOrder.run, '
+              'the evaluation that stops at the first failing call): run_prefix - the log of an evaluation that ends in an '
+              'exception is a prefix of the log of the same expression with the failing call succeeding (everything in front '
+              'once, in order, nothing behind, nothing twice), run_complete / run_of_noRaise, calls_prefix_of_probes / '
+              'calls_nodup, evalPassE_prefix / evalPassE_first_raise for the pass of choose_overload over arguments that may '
+              'raise. Lazy values nothing consumes: unconsumed_never_fires (the probes inside the per-element lambdas of a '
+              'lazy value in a position that does not iterate it are not in the log), not_consumed_no_application (a pipeline '
+              'of any stages over any source of which no result is asked for fires nothing), consumed_prefix_only. Tie: generated probe expressions, pipelines '
               'and single calls, every argument written positionally or by keyword, in contexts of the camelCase and of the '
               'Python convention, evaluated by the real engine, log compared with the predicted trace; C05/C06 tie the '
               'resolver model.')
